@@ -52,12 +52,22 @@ REQUIRED_THEOREMS = [
     "C04_gen_poolUnlockedAccesses",
     "C04_gen_stdlibLoadsPlain",
     "C04_gen_loadsParsesWholeBody",
+    "C04_base_exception_contained",
+    "C04_base_exception_notification",
+    "C04_base_exception_dispatch_fn",
+    "C04_base_exception_instance_dispatch",
+    "C04_gen_dispatchCallCatchAll",
+    "C04_gen_syncCallCatchAll",
+    "C04_gen_syncCallHandlerClasses",
 ]
 
 MONITORS = [("notification", sc.monitor_c04)]
 
 RULE = ("notification shapes (2.0 without id, id null, id '') alone and at sampled batch positions, methods that return, "
-        "raise, do not exist, get bad arguments; default, instance and custom dispatchers; no pool / real ThreadPool behind "
+        "raise (ordinary exceptions, and — class:baseexc/<path>/<flavour>/<shape> — every flavour of exception that is not an instance of "
+        "Exception: SystemExit from sys.exit(), KeyboardInterrupt, GeneratorExit, CancelledError, BaseException, user subclasses, at "
+        "frame depth 1-3, from registered functions, instance attributes, partials / callable objects / decorated functions, the "
+        "instance's _dispatch and custom dispatch functions), do not exist, get bad arguments; default, instance and custom dispatchers; no pool / real ThreadPool behind "
         "a recording proxy (drained before the counters are read) / full pool; every request of the run that is a JSON text — the three "
         "notification shapes x the four method outcomes and two batches systematically, a seeded share of the rest (five times as many, at most all, in the "
         "thorough tier) — again wrapped in insignificant white space (SP, TAB, LF, CR, CRLF, mixed runs: before, after, both sides, between the "
@@ -69,7 +79,7 @@ RULE = ("notification shapes (2.0 without id, id null, id '') alone and at sampl
 
 def run(ctx):
     em = {"single": 0.8, "batch": 2.0, "damaged": 0.1, "descriptor": 0.4, "noise": 0.2, "pool": 3.0, "randreg": 0.6, "post": 0.02,
-          "exhaustive_batch": True, "ws": 0.2, "ws_focus": "notif", "textlayer": True}
+          "exhaustive_batch": True, "ws": 0.2, "ws_focus": "notif", "textlayer": True, "baseexc": 1.0}
     sc.standard_run(ctx, "C04", MONITORS, sc.proj_notif, em, RULE)
     pooled_stage(ctx)
 
